@@ -130,6 +130,7 @@ type genCfg struct {
 	wChild, wClose   int
 	big              bool
 	maxval           bool // values within a few hundred bytes of the largest size Insert accepts
+	maxvalAt         string // if set: only this path gets such values (keeps runs with many operations affordable)
 }
 
 // GenTree generates a script for the tree world for the given property.
@@ -196,10 +197,31 @@ func GenTree(prop string, r *sim.Rand, tier string) sim.Script {
 	if c.children {
 		c.wChild, c.wClose = 6, 7
 	}
-	if r.Chance(1, 500) {
+	if r.Chance(1, 700) {
 		c.maxval = true
 		if c.nOps > 8 {
 			c.nOps = 8
+		}
+		switch r.Intn(3) {
+		case 0: // a branch that carries a value of its own AND all sixteen children
+			base := []string{"", "ab", "0f3c"}[r.Intn(3)]
+			c.maxvalAt = base
+			if base == "" {
+				c.maxvalAt = "-"
+			}
+			c.pool = []string{base, base, base}
+			for _, x := range "0123456789abcdef" {
+				c.pool = append(c.pool, base+string(x)+string("0123456789abcdef"[r.Intn(16)]))
+			}
+			c.nOps = 30 + r.Intn(20)
+			c.wDel, c.wEmpty = 4, 0
+		case 1: // very long keys (the key is part of a leaf's encoding)
+			n := 1 + r.Intn(3)
+			c.pool = nil
+			stem := strings.Repeat("5a", 500+r.Intn(600))
+			for i := 0; i < n; i++ {
+				c.pool = append(c.pool, stem[:2*(400+r.Intn(len(stem)/2-400))]+fmt.Sprintf("%02x", i)+strings.Repeat("c3", r.Intn(300)))
+			}
 		}
 	}
 	open := []int{0} // open trie ids
@@ -221,7 +243,7 @@ func GenTree(prop string, r *sim.Rand, tier string) sim.Script {
 		switch k {
 		case 0:
 			n++
-			if c.maxval && r.Chance(1, 3) {
+			if c.maxval && ((c.maxvalAt == "" && r.Chance(1, 3)) || (c.maxvalAt != "" && p == strings.TrimPrefix(c.maxvalAt, "-") && r.Chance(1, 2))) {
 				s.Ops = append(s.Ops, Op{K: "insmax", T: t, P: p, V: []byte(fmt.Sprintf("V%d", n)), N: int64([]int{r.Intn(12), r.Intn(12), r.Intn(80), r.Intn(700)}[r.Intn(4)])})
 				break
 			}
